@@ -870,8 +870,20 @@ impl<'a, 'w> Executor<'a, 'w> {
             self.raw_line("ev unordered");
             return;
         }
-        let mut buf = String::with_capacity(events.len() * 16);
+        let mut buf = String::with_capacity(events.len() * 4);
+        // the draws made between `splitstart` and `normal` belong to the split search (two-means): they are
+        // not oracles of the model and are 94 % of a trace, so they are left out unless asked for
+        let full = std::env::var_os("HARNESS_FULL_EVENTS").is_some();
+        let mut in_split = false;
         for ev in events {
+            match ev {
+                Event::SplitStart => in_split = true,
+                Event::Normal(_) => in_split = false,
+                _ => {}
+            }
+            if in_split && !full && matches!(ev, Event::Ext(..)) {
+                continue;
+            }
             match ev {
                 Event::Ext(0, v) => {
                     let _ = writeln!(buf, "ev draw {v}");
